@@ -59,7 +59,6 @@ func networkRoots(w *World, r *Run, rule string) []*ssa.Function {
 // Key: function | kind | operand description (semantic, not positional).
 var confirmedSafe = map[string]string{
 	"(*" + pWitness + ".Proof).Unmarshal | slice | strings.Split result [:len-1]":                  "strings.Split always returns at least one element, so len-1 >= 0",
-	fnHandleUpdate + " | index | Sigs[0] of the note opened from the witness's returned checkpoint": "ParseCheckpoint succeeded with the witness verifier as the only verifier: note.Open returns >= 1 verified signature or an error",
 	modPath + "/internal/feeder/sumdb.FeedLog$1 | slice2arr | to.Hash -> [32]byte":                 "the checkpoint bytes passed tlog.ParseTree (exactly 32-byte hash) in fetchCheckpoint -> ParseCheckpointNote before FeedOnce parsed them again (rule C19.b-sumdb-raw below checks that provenance)",
 }
 
@@ -211,6 +210,19 @@ func ruleImplicitPanic(w *World, r *Run, rule string, reach map[*ssa.Function]bo
 					}
 					if !ok && implies(facts, "<", idx, ln, true) && (implies(facts, "<", idx, zero, false) || nonNeg(idx)) {
 						ok, why = true, "dominated by facts implying 0 <= index < len"
+					}
+					// contract: a successful note.Open / ParseCheckpoint returns a note with at least one verified signature
+					if !ok && idx.Kind == "const" && idx.Name == "0" && base.Kind == "field" && base.Name == "Sigs" && len(base.Args) == 1 && base.Args[0].Kind == "call" {
+						ct := base.Args[0]
+						nres := map[string]int{cParse: 4, cOpen: 2}[ct.Name]
+						if nres > 0 && ct.Idx == nres-1 {
+							errT := mk("call", ct.Name, nres, nil, ct.Args...)
+							for _, f := range facts {
+								if f.Pos && f.T.Kind == "binop" && f.T.Name == "==" && ((f.T.Args[0] == errT && f.T.Args[1].Kind == "nil") || (f.T.Args[1] == errT && f.T.Args[0].Kind == "nil")) {
+									ok, why = true, "contract of note.Open: success implies at least one verified signature"
+								}
+							}
+						}
 					}
 				case "slice":
 					kind = "slice"
